@@ -11,6 +11,15 @@ VERIF = os.path.dirname(os.path.dirname(os.path.abspath(__file__)))
 REPO = os.environ.get("VERIF_REPO", "/repo")
 CACHE = os.path.join(VERIF, ".cache")
 COQ = os.path.join(VERIF, "coq")
+ALT = os.path.realpath(REPO) != "/repo"
+if ALT:
+    # mutation self-tests against a private checkout: tables are regenerated from THAT checkout, so the whole Coq
+    # development is built in a private copy (the shared coq/ tree must keep the tables of the real /repo)
+    _tag = hashlib.sha256(os.path.realpath(REPO).encode()).hexdigest()[:10]
+    COQ = os.path.join(CACHE, "alt", _tag, "coq")
+    os.makedirs(os.path.dirname(COQ), exist_ok=True)
+    subprocess.run(["rsync", "-a", "--delete", "--exclude", "theories/Tables/*.v", "--exclude", "Makefile*", "--exclude", ".Makefile*",
+                    "--exclude", "_CoqProject", os.path.join(VERIF, "coq") + "/", COQ + "/"], check=False)
 HOOK_CFG = "mimium_verif"
 NPROC = os.cpu_count() or 4
 
